@@ -255,6 +255,8 @@ theorem serverJoinOne_mid {c0 c c' : Ctx} {sid : Id} {m : IrcMsg} {chn : String}
     split at hr
     · cases hr; exact h.sendSvc _
     · rename_i tid hidx
+      split at hr
+      · cases hr; exact h.sendSvc _
       obtain ⟨c1, h1, hr⟩ := Res.bind_eq_ok.1 hr
       obtain ⟨sp, _, hr⟩ := Res.bind_eq_ok.1 hr
       obtain ⟨rc, _, hr⟩ := Res.bind_eq_ok.1 hr
@@ -277,6 +279,8 @@ theorem serverJoinOne_safe {c0 c : Ctx} {sid : Id} {m : IrcMsg} {chn : String} (
     split
     · exact NoPanic.pure _
     · rename_i tid hidx
+      split
+      · exact NoPanic.pure _
       obtain ⟨t, ht⟩ := h.hinv.toWInvCore.indexed_stored hidx
       refine NoPanic.bind (NoPanic.of_ok ⟨_, modS_of_get (c := putChan _ _ _) _ ht⟩) (fun c1 h1 => ?_)
       have hch : AMap.get c.st.channels (chanToLower chn) = some ((AMap.get c.st.channels (chanToLower chn)).getD { name := chn }) ∨
